@@ -451,6 +451,7 @@ func (x *Extractor) cacheStoreOrLoad(refs []Reference, tp reflect.Type, res any)
 func StoreOrLoadPair[A, B any](x *Extractor, ref Reference, a A, b B) (A, B) {
 	ka := extractorKey{ref: ref, tp: reflect.TypeFor[A]()}
 	kb := extractorKey{ref: ref, tp: reflect.TypeFor[B]()}
+	verifSched("pair.enter", ref)
 	x.mu.Lock()
 	defer x.mu.Unlock()
 	if v, ok := x.cache[ka]; ok {
